@@ -718,11 +718,32 @@ def with_edit_history(rng, case):
 
 
 def _flat_kwargs(d):
-    return dict(attr_dict={k: v for k, v in d["ad"]}, all_attrs=d["all"], max_depth=d["md"],
+    return dict(attr_dict=_keep({k: v for k, v in d["ad"]}), all_attrs=d["all"], max_depth=d["md"],
                 skip_depth=d.get("sd", 0), leaf_only=d.get("lo", False))
 
 
 def _export(d, start):
+    """the export call; the containers handed to it (attr_dict, attr_list) belong to the caller and must come back as
+    they went in"""
+    res = _export0(d, start)
+    for kept, want in _KEPT:
+        if kept != want:
+            _KEPT.clear()
+            raise RuntimeError(f"the exporter modified a container of the caller: {kept!r} (was {want!r})")
+    _KEPT.clear()
+    return res
+
+
+_KEPT = []
+
+
+def _keep(x):
+    import copy
+    _KEPT.append((x, copy.deepcopy(x)))
+    return x
+
+
+def _export0(d, start):
     import bigtree
     fmt = d["fmt"]
     if fmt == "dict":
@@ -732,11 +753,11 @@ def _export(d, start):
     if fmt == "polars":
         return bigtree.tree_to_polars(start, path_col=d["pc"], name_col=d["nk"], parent_col=d["pk"], **_flat_kwargs(d))
     if fmt == "nested":
-        return bigtree.tree_to_nested_dict(start, name_key=d["nk"], child_key=d["ck"], attr_dict={k: v for k, v in d["ad"]},
+        return bigtree.tree_to_nested_dict(start, name_key=d["nk"], child_key=d["ck"], attr_dict=_keep({k: v for k, v in d["ad"]}),
                                            all_attrs=d["all"], max_depth=d["md"])
     if fmt == "newick":
         return bigtree.tree_to_newick(start, intermediate_node_name=d["inn"], length_attr=d["la"], length_sep=d["ls"],
-                                      attr_list=list(d["al"]), attr_prefix=d["ap"], attr_sep=d["as"])
+                                      attr_list=_keep(list(d["al"])), attr_prefix=d["ap"], attr_sep=d["as"])
     if fmt == "print":
         buf = io.StringIO()
         with contextlib.redirect_stdout(buf):
